@@ -217,6 +217,8 @@ class Initiator(DataExchangeProtocol):
 
         # log.debug("dep raw >> %s", hexlify(send_data).decode())
         send_data = bytearray(send_data)
+        if len(send_data) == 0:
+            raise ValueError("send_data must not be empty")
 
         while send_data:
             data = send_data[0:self.miu]
